@@ -4,6 +4,14 @@ Engine E4 + E3: the real WorkerPool / PrefetchedCourierServer / orchestrate
 drivers over the simulated transport on real threads, no faults, seeded handler
 delays.  Oracle: the same pipeline evaluated in process and by an independent
 plain-Python reference; exact integer aggregators.
+
+Driver 'concurrent': TWO sharded runs (datasets with disjoint value ranges) at
+the same time over shared workers - two pools over overlapping server sets, or
+two threads on one pool; each run alone is the control; each concurrent run must
+equal its own in-process result or raise.  Driver 'xagg': an aggregate that
+works in process but whose merge_states / get_result of a merged state raises:
+the caller gets an error or exactly one (correct) aggregate; "neither" is decided
+from state (iterator finished, merge thread ended, result queue empty).
 """
 
 from __future__ import annotations
@@ -20,15 +28,30 @@ RULE = (
     'exact aggregator fused or as its own stage; driver sharded_pipelines_as_iterator with W=1-4 '
     'workers, K=1-6 shards, iterate_batch_size 1-4 | run_pipeline_interleaved with a master server, '
     'W workers on the apply stage, buffer sizes 0-3; seeded handler delays). Also merge_states with '
-    'every strict_states_cnt != number of states. Non-trivial = (W >= 2 or K >= 2) and >= 2 '
-    'elements; distinct = hash of (spec, driver, W, K, sizes)')
+    'every strict_states_cnt != number of states. concurrent = two such sharded runs (9-40 integers, '
+    'second dataset shifted by 10^12, always aggregating) over W=1-3 servers, pool memberships with >= 1 '
+    'shared server or one pool used by two threads, K=1-6 shards each, second start delayed 0-50 ms, '
+    'preceded by each run alone; xagg = aggregate without merge_states / failing merge_states / failing '
+    'get_result of a merged state, sharded or interleaved. Non-trivial = (W >= 2 or K >= 2) and >= 2 '
+    'elements (concurrent: the generator calls of the two runs alternated); distinct = hash of '
+    '(spec, driver, W, K, sizes)')
 ASSUMPTIONS = [
     'transport stand-in semantics (see C14); no faults are injected; time is not dilated',
     'records are pre-batched lists, no re-batching operator is used, so the multiset of output batches does not depend on the partition',
     'a case that does not complete within 120 s (typical: < 1 s) is retried once; two consecutive watchdog expiries of the same case are reported as a hang',
+    'concurrent: both pools are built with the same worker configuration (they share the Worker singletons of the common addresses), default max_parallelism=1; the two runs are independent pipelines; a run that raises is accepted; a watchdog expiry is inconclusive',
+    'xagg: the aggregate is legal for in-process runs (merge_states is documented as required for distributed implementations only); a watchdog expiry alone is inconclusive',
 ]
 REQUIRED = ['sharded_cases', 'interleaved_cases', 'strict_cnt_checks', 'batches_compared',
-            'agg_results_compared', 'transport_calls']
+            'agg_results_compared', 'transport_calls', 'concurrent_cases', 'concurrent_two_pool_cases',
+            'concurrent_one_pool_cases', 'concurrent_runs_overlapped', 'concurrent_runs_compared',
+            'merge_failing_cases', 'merge_failing_sharded_cases', 'merge_threads_observed']
+# Mechanism keys of the audited root causes.
+# WorkerPool.iterate never acquires / reserves the workers it schedules shards on: two
+# runs send init_generator to the same worker, the second replaces the first generator
+K_CONC = 'concurrent-sharded-runs-share-unacquired-workers'
+# sharded_pipelines_as_iterator merges in an unsupervised daemon thread
+K_MERGE = 'sharded-merge-error-swallowed-no-result'
 CHUNK_TIMEOUT_S = {'quick': 400, 'thorough': 3000}
 
 
@@ -161,7 +184,7 @@ def run_sharded(spec, W, K, ibs, delay_rng):
     cwork.stop_servers(servers)
 
 
-def run_interleaved(spec, W, buf, with_pool):
+def run_interleaved(spec, W, buf, with_pool, define=None):
   from vlib import c16lib, cwork
   from ml_metrics._src.chainables import courier_server, courier_worker, orchestrate
   servers = cwork.start_servers(W, 'c16i') if with_pool else []
@@ -172,7 +195,7 @@ def run_interleaved(spec, W, buf, with_pool):
       pool = courier_worker.WorkerPool([s.address for s in servers], call_timeout=60)
       pool.wait_until_alive(deadline_secs=60, minimum_num_workers=W)
       master = courier_server.CourierServer(cwork.unique('c16master'))
-    pipeline = c16lib.define_pipeline(spec)
+    pipeline = (define or c16lib.define_pipeline)(spec)
     resources = {
         'datasource': orchestrate.RunnerResource(buffer_size=buf),
         'apply': orchestrate.RunnerResource(worker_pool=pool, buffer_size=buf,
@@ -326,6 +349,274 @@ def run_case_spec(ctx, case):
     ctx.sample({'case': case, 'n_batches': len(outs), 'agg': repr(ref_agg)[:120]})
 
 
+# ---------------------------------------------------------------------------
+# two concurrent sharded runs over shared workers
+# ---------------------------------------------------------------------------
+
+
+def gen_concurrent_case(rng):
+  from vlib import c16conc
+  specs = []
+  for r in range(2):
+    sp = gen_spec(rng)
+    sp.pop('agg2', None)
+    sp['n'] = rng.choice([9, 17, 40, 40])
+    sp['agg'] = rng.choice(['sum', 'collect'])
+    # disjoint value ranges: every value of run 1 is >= OFFSET, every value of run 0 below
+    sp['ops'] = [['affine', {'a': 1, 'b': r * c16conc.OFFSET}]] + sp['ops'][:2]
+    specs.append(sp)
+  W = rng.randint(1, 3)
+  one_pool = rng.random() < 0.4
+  a = sorted(rng.sample(range(W), rng.randint(1, W)))
+  b = sorted(rng.sample(range(W), rng.randint(1, W)))
+  if one_pool:
+    b = a
+  elif not set(a) & set(b):
+    b = sorted(set(b) | {a[0]})
+  return {'driver': 'concurrent', 'specs': specs, 'W': W, 'members': [a, b], 'one_pool': one_pool,
+          'K': [rng.randint(1, 6), rng.randint(1, 6)], 'ibs': rng.randint(1, 4),
+          'stagger_ms': rng.choice([0, 5, 20, 50])}
+
+
+def _judge_sharded(res, ref_outs, ref_agg, other_range=None):
+  """[(kind, detail)] of one observed sharded run against its reference."""
+  import collections
+  from ml_metrics._src.chainables import transform
+  out = []
+  got = collections.Counter(repr(list(b)) for b in res['outs'])
+  want = collections.Counter(repr(list(b)) for b in ref_outs)
+  if got != want:
+    foreign = 0
+    if other_range is not None:
+      foreign = sum(1 for b in res['outs'] if any(other_range(v) for v in b))
+    out.append(('output_multiset_differs',
+                {'missing': sum((want - got).values()), 'unexpected': sum((got - want).values()),
+                 'batches_of_the_other_run': foreign, 'n_got': len(res['outs']),
+                 'n_want': len(ref_outs), 'got': sorted(got)[:6], 'want': sorted(want)[:6]}))
+  finals = [a for a in res['aggs'] if isinstance(a, transform.AggregateResult)]
+  if len(finals) != 1 or len(res['aggs']) != 1:
+    if res['gave_up_waiting']:
+      out.append(('WATCHDOG', 'no aggregate yet, merge thread still alive'))
+    else:
+      out.append(('not_exactly_one_final_aggregate',
+                  {'count': len(finals), 'all': repr(res['aggs'])[:200],
+                   'merge_thread_alive': res['merge_thread_alive'],
+                   'merge_thread_ended_with': repr(res['merge_thread_error'])[:160]}))
+  elif finals[0].agg_result != ref_agg:
+    out.append(('aggregate_differs', {'got': repr(finals[0].agg_result)[:200],
+                                      'want': repr(ref_agg)[:200]}))
+  return out
+
+
+def run_concurrent_case(ctx, case):
+  import threading
+  from vlib import c16conc, c16lib, cwork
+  from ml_metrics._src.chainables import courier_worker
+  specs, W, K = case['specs'], case['W'], case['K']
+  refs = [c16lib.reference(sp) for sp in specs]
+  box = {}
+
+  def go():
+    servers = cwork.start_servers(W, 'c16c')
+    try:
+      with c16conc.CallLog() as calls, c16conc.ThreadWatch() as watch:
+        mk = lambda idx: courier_worker.WorkerPool(
+            [servers[i].address for i in idx], call_timeout=60, iterate_batch_size=case['ibs'])
+        pool_a = mk(case['members'][0])
+        pool_b = pool_a if case['one_pool'] else mk(case['members'][1])
+        pools = [pool_a, pool_b]
+        for p in pools:
+          p.wait_until_alive(deadline_secs=60, minimum_num_workers=len(p.all_workers))
+        common = set(case['members'][0]) & set(case['members'][1])
+        box['shared_objects'] = all(
+            x is y for x in pool_a.all_workers for y in pool_b.all_workers
+            if x.address == y.address) and bool(common)
+        # control: each run alone over its pool
+        box['solo'] = [c16conc.sharded_run(pools[r], c16lib.define_pipeline, specs[r], K[r], watch)
+                       for r in range(2)]
+        calls.clear()
+        results = [None, None]
+
+        def one(r):
+          if r == 1 and case['stagger_ms']:
+            time.sleep(case['stagger_ms'] / 1000.0)
+          results[r] = c16conc.sharded_run(pools[r], c16lib.define_pipeline, specs[r], K[r], watch)
+
+        ts = [threading.Thread(target=one, args=(r,), daemon=True, name=f'verif-run{r}')
+              for r in range(2)]
+        for t in ts:
+          t.start()
+        for t in ts:
+          t.join(100)
+        box['alive'] = [t.is_alive() for t in ts]
+        box['results'] = results
+        box['replaced'] = calls.replaced_while_in_use()
+        box['overlapped'] = calls.interleaved()
+        box['acquired'] = [len(p.acquired_workers) for p in pools]
+    finally:
+      cwork.stop_servers(servers)
+
+  finished, _, exc = cwork.run_with_watchdog(go, 240)
+  ctx.count('concurrent_cases')
+  ctx.count('concurrent_one_pool_cases' if case['one_pool'] else 'concurrent_two_pool_cases')
+  overlapped = bool(box.get('overlapped'))
+  ctx.case(('concurrent', case), overlapped and min(sp['n'] for sp in specs) >= 2)
+  if not finished or exc is not None or any(box.get('alive', [True])):
+    ctx.inconclusive_case(f'concurrent case did not complete: {exc!r}'[:200], case)
+    return
+  if not box['shared_objects']:
+    ctx.inconclusive_case('the two pools do not share the Worker objects', case)
+    return
+  in_other = [lambda v: v >= c16conc.OFFSET, lambda v: v < c16conc.OFFSET]
+  # control runs: a difference here is not a matter of concurrency
+  for r in range(2):
+    res = box['solo'][r]
+    probs = [('raised', repr(res['error'])[:200])] if res['error'] is not None else \
+        _judge_sharded(res, refs[r][0], refs[r][1])
+    if probs:
+      if all(k == 'WATCHDOG' for k, _ in probs):
+        ctx.inconclusive_case('control run: no aggregate within the watchdog', case)
+      else:
+        ctx.violation('control_run_differs', case, {'run': r, 'problems': probs[:3]},
+                      mechanism='sharded-control-run-differs:' + probs[0][0])
+      return
+  if overlapped:
+    ctx.count('concurrent_runs_overlapped')
+  if box['replaced']:
+    ctx.count('generator_replaced_while_its_run_was_reading', len(box['replaced']))
+  for r in range(2):
+    res = box['results'][r]
+    if res['error'] is not None:
+      ctx.count('concurrent_runs_raised')       # accepted: the caller was told
+      ctx.observe('concurrent_run_raised', repr(res['error'])[:160])
+      continue
+    ctx.count('concurrent_runs_compared')
+    ctx.count('batches_compared', len(res['outs']))
+    for kind, detail in _judge_sharded(res, refs[r][0], refs[r][1], in_other[r]):
+      if kind == 'WATCHDOG':
+        ctx.inconclusive_case('concurrent run: no aggregate within the watchdog', case)
+        continue
+      # Audited root cause, decided from the observed calls: a run initialised its
+      # generator on a worker, the other run initialised one on the same worker, and the
+      # first run went on asking that worker for batches.
+      mech = K_CONC if box['replaced'] else f'concurrent-sharded:{kind}'
+      ctx.violation('concurrent_run_' + kind, case,
+                    {'run': r, 'detail': detail, 'no_error_raised': True,
+                     'workers_whose_generator_was_replaced_while_read': box['replaced'][:4],
+                     'workers_acquired_by_the_pools_afterwards': box['acquired']},
+                    mechanism=mech)
+  if any(box['acquired']):
+    ctx.violation('workers_still_acquired', case, {'n': box['acquired']},
+                  mechanism='concurrent-sharded-workers-not-released')
+  if len(ctx.samples) < 5 and box['replaced']:
+    ctx.sample({'case': case, 'replaced': box['replaced'][:3]})
+
+
+# ---------------------------------------------------------------------------
+# aggregates that cannot be merged
+# ---------------------------------------------------------------------------
+
+
+def gen_xagg_case(rng):
+  sp = gen_spec(rng)
+  sp.pop('agg2', None)
+  sp['agg'] = None
+  sp['xagg'] = rng.choice(['no_merge', 'no_merge', 'merge_raises', 'merged_result_raises'])
+  if rng.random() < 0.7:
+    return {'driver': 'xagg', 'via': 'sharded', 'spec': sp, 'W': rng.randint(1, 3),
+            'K': rng.randint(1, 5), 'ibs': rng.randint(1, 4)}
+  return {'driver': 'xagg', 'via': 'interleaved', 'spec': sp, 'W': rng.randint(1, 3),
+          'buf': rng.randint(0, 3), 'with_pool': True}
+
+
+def run_xagg_case(ctx, case):
+  from vlib import c16conc, cwork
+  from ml_metrics._src.chainables import courier_worker, transform
+  spec = case['spec']
+  ref_outs, ref_agg = c16conc.reference_x(spec)
+  it = c16conc.define_pipeline_x(spec).make().iterate()
+  ip_outs = list(it)
+  if _canon_batches(ip_outs) != _canon_batches(ref_outs) or dict(it.agg_result or {}) != ref_agg:
+    ctx.violation('in_process_differs_from_reference', case,
+                  {'got': repr(ip_outs)[:200], 'agg': repr(it.agg_result), 'ref_agg': repr(ref_agg)},
+                  mechanism='in-process-differs')
+    return
+  ctx.count('merge_failing_cases')
+  ctx.case(('xagg', case), spec['n'] >= 2 and (case['W'] >= 2 or case.get('K', 1) >= 2))
+  if case['via'] == 'interleaved':
+    finished, res, exc = cwork.run_with_watchdog(
+        lambda: run_interleaved(spec, case['W'], case['buf'], case['with_pool'],
+                                define=c16conc.define_pipeline_x), 120)
+    if not finished:
+      ctx.inconclusive_case('interleaved run with a merge-failing aggregate: watchdog', case)
+      return
+    if exc is not None:
+      ctx.count('merge_error_reached_caller')
+      return
+    outs, aggs, _ = res
+    finals = [a for a in aggs if isinstance(a, transform.AggregateResult)]
+    if len(finals) != 1 or finals[0].agg_result != ref_agg:
+      ctx.violation('no_error_and_no_correct_aggregate', case,
+                    {'returned': repr(aggs)[:300], 'want': repr(ref_agg)},
+                    mechanism='interleaved-xagg:no-error-no-aggregate')
+    elif _canon_batches(outs) != _canon_batches(ref_outs):
+      ctx.violation('output_multiset_differs', case, {'n_got': len(outs), 'n_want': len(ref_outs)},
+                    mechanism='interleaved-xagg:outputs-differ')
+    else:
+      ctx.count('merge_failing_cases_with_one_correct_aggregate')
+    return
+  ctx.count('merge_failing_sharded_cases')
+  box = {}
+
+  def go():
+    servers = cwork.start_servers(case['W'], 'c16x')
+    try:
+      with c16conc.ThreadWatch() as watch:
+        pool = courier_worker.WorkerPool([s.address for s in servers], call_timeout=60,
+                                         iterate_batch_size=case['ibs'])
+        pool.wait_until_alive(deadline_secs=60, minimum_num_workers=case['W'])
+        box['res'] = c16conc.sharded_run(pool, c16conc.define_pipeline_x, spec, case['K'], watch)
+        box['acquired'] = len(pool.acquired_workers)
+    finally:
+      cwork.stop_servers(servers)
+
+  finished, _, exc = cwork.run_with_watchdog(go, 120)
+  if not finished or exc is not None:
+    ctx.inconclusive_case(f'sharded run with a merge-failing aggregate did not complete: {exc!r}'[:200],
+                          case)
+    return
+  res = box['res']
+  if res['merge_thread']:
+    ctx.count('merge_threads_observed')
+  if res['error'] is not None:
+    ctx.count('merge_error_reached_caller')
+    return
+  finals = [a for a in res['aggs'] if isinstance(a, transform.AggregateResult)]
+  state = {'iterator_finished_without_error': True, 'batches_delivered': len(res['outs']),
+           'merge_thread_alive': res['merge_thread_alive'],
+           'merge_thread_ended_with': repr(res['merge_thread_error'])[:160],
+           'result_queue': repr(res['aggs'])[:200]}
+  if not res['aggs']:
+    if res['gave_up_waiting'] or res['merge_thread_alive'] or not res['merge_thread']:
+      ctx.inconclusive_case('no aggregate yet and the merge thread is still alive / unknown', case)
+      return
+    # state, not time: the iterator ended normally, the merge thread has ended, the
+    # result queue is empty - nothing can ever arrive, and nobody was told
+    ctx.violation('no_error_and_no_final_aggregate', case, state,
+                  mechanism=K_MERGE if res['merge_thread_error'] is not None
+                  else 'sharded-xagg:no-final-aggregate')
+    return
+  if len(finals) != 1 or len(res['aggs']) != 1 or finals[0].agg_result != ref_agg:
+    ctx.violation('wrong_final_aggregate', case, dict(state, want=repr(ref_agg)),
+                  mechanism='sharded-xagg:aggregate-differs')
+  elif _canon_batches(res['outs']) != _canon_batches(ref_outs):
+    ctx.violation('output_multiset_differs', case,
+                  {'n_got': len(res['outs']), 'n_want': len(ref_outs)},
+                  mechanism='sharded-xagg:outputs-differ')
+  else:
+    ctx.count('merge_failing_cases_with_one_correct_aggregate')
+
+
 def run_chunk(ctx, spec):
   if 'fidelity' in spec:
     run_fidelity(ctx, spec['fidelity'])
@@ -346,6 +637,12 @@ def run_chunk(ctx, spec):
     run_case_spec(ctx, case)
     if i % 3 == 0:
       check_strict_counts(ctx, pspec, case)
+  # (separate generator: the cases above stay what they were)
+  rng2 = random.Random(spec['rseed'] * 1000003 + spec['chunk'] * 13 + 7)
+  for i in range(max(1, spec['n'] // 5)):
+    run_concurrent_case(ctx, gen_concurrent_case(rng2))
+  for i in range(max(1, spec['n'] // 8)):
+    run_xagg_case(ctx, gen_xagg_case(rng2))
   ctx.count('transport_calls', sum(1 for e in courier.sim.call_log if e['ev'] == 'call'))
 
 
@@ -354,5 +651,9 @@ def run_case(ctx, case):
   cwork.setup(scale=1.0)
   if case.get('sub') == 'strict':
     check_strict_counts(ctx, case['spec'], case)
+  elif case.get('driver') == 'concurrent':
+    run_concurrent_case(ctx, case)
+  elif case.get('driver') == 'xagg':
+    run_xagg_case(ctx, case)
   else:
     run_case_spec(ctx, case)
